@@ -16,7 +16,7 @@ RULE = ("initial (1005h, 1006h) x timer frequency {100 Hz, 1 kHz, 10 kHz, 20 kHz
 ASSUMPTIONS = ["11-bit SYNC identifiers", "only periods that are a whole number of ticks (or unresolvable) are written",
                "period 0 while producing: refusal or 'accepted, nothing produced' both accepted",
                "phase after boot-up / reset communication is open (first SYNC within one period)"]
-VARIANTS = ["asan"]
+VARIANTS = ["asan", "lean"]
 
 PREOP, OP, STOP = 2, 3, 4
 E_RANGE = 0x06090030
@@ -523,7 +523,10 @@ def work(item, ctx):
         return res
     for h in range(item[2]):
         rng = random.Random(F.seed_for(ctx["seed"], "C16", item[1], h))
-        run_history(res, ctx["exes"]["asan"], rng, item[1] == 0 and h == 0)
+        # every fourth item on a build without SDO client and LSS slave (SYNC handling may depend on neither)
+        run_history(res, ctx["exes"]["lean" if item[1] % 4 == 3 else "asan"], rng, item[1] == 0 and h == 0)
+        if item[1] % 4 == 3:
+            res.counters["histories_on_build_without_sdo_client"] += 1
     return res
 
 
